@@ -261,7 +261,7 @@ fn real_tok(ch: &mut Chooser, text: &str) -> Tok {
 }
 
 pub const STR_FORMS: &[&str] = &["literal", "hex"];
-pub const HEX_FORMS: &[&str] = &["upper", "lower", "inner-ws", "odd-digits"];
+pub const HEX_FORMS: &[&str] = &["upper", "lower", "inner-ws", "odd-digits", "odd-digits+inner-ws"];
 pub const CONT_POS: &[&str] = &["none", "first", "middle", "last"];
 pub const CONT_EOL: &[&str] = &["LF", "CR", "CRLF"];
 // spellings of one byte inside a literal string
@@ -368,16 +368,23 @@ fn string_tok(ch: &mut Chooser, s: &[u8]) -> Tok {
             let t = if hf == 1 { format!("{:02x}", b) } else { format!("{:02X}", b) };
             let t = t.as_bytes();
             out.push(t[0]);
-            if hf == 2 {
+            if hf == 2 || hf == 4 {
                 out.push([b' ', b'\n', b'\r', b'\t', 0x0c, 0][i % 6]);
             }
             out.push(t[1]);
-            if hf == 2 {
+            if hf == 2 || hf == 4 {
                 out.push(b' ');
             }
         }
-        if hf == 3 && s.last().map(|b| b & 15 == 0).unwrap_or(false) {
-            out.pop();
+        if (hf == 3 || hf == 4) && s.last().map(|b| b & 15 == 0).unwrap_or(false) {
+            // the final 0 digit may be left out; with inner white-space it is the digit before the last separator
+            if hf == 4 {
+                let ws = out.pop().unwrap();
+                out.pop();
+                out.push(ws);
+            } else {
+                out.pop();
+            }
         }
         out.push(b'>');
         return Tok::delim(&out);
